@@ -173,6 +173,12 @@ def run_case(case, ctx):
             ctx.count("histories_with_repeated_row_labels")
         else:
             labels = [np.array(["r%d" % v for v in rng.permutation(len(b))], dtype=object) for b in batches]
+    if as_object:
+        try:
+            zoo.feed(zoo.make(name, params), name, np.array(batches[0].tolist(), dtype=object), first=True)
+        except (ValueError, TypeError):
+            as_object = False  # object arrays are refused outright: nothing to permute
+            ctx.count("object_arrays_refused")
     orig = run(name, params, batches, key, labels, as_object)
     drift = any(o["state"] == "drift" for o in orig)
     if name == "NNDVI":
